@@ -47,6 +47,15 @@ def judge(chk, lits, a):
 
 
 def run(chk):
+    progs_i, li = interaction_stream(chk)
+    from orch import interact
+    for p_ in progs_i:
+        if p_['family'] != 'reread-literal': continue
+        k_, v_ = outcome(li[p_['text']])
+        lits_ = [x for x in interact.RUNES + interact.STRS if x in p_['text']]
+        vals_ = [lf[1] for lf in leaves(v_)] if k_ == 'ok' else []
+        if k_ != 'ok' or not any(x in vals_ for x in lits_):
+            chk.oracle_fail('lit-reread', 'file', p_['text'], (k_, vals_[:6]), lits_[:3], 'a well-formed literal inside a construct the parser reads twice is rejected or altered')
     rng = random.Random(chk.seed)
     maxlen = 3 if chk.tier == 'quick' else 4
     chk.rule = ('all literal bodies up to length %d over the 18-symbol alphabet of the property x 3 quote kinds (exhaustive), seeded sample of lengths %d-6, '
